@@ -14,7 +14,8 @@ META = {
     'technique': 'explicit-state BFS over call histories with real-state hashing (library .data/.bss + process attributes), reference + differential oracle',
     'text': 'Breadth-first search over histories of wrapped calls on the production wrapper; states are digests of every writable symbol of the library plus '
             'process attributes; every (reachable state, call letter) pair is executed; when the state set closes the result holds for histories of any length '
-            'over the alphabet. All ordered pairs (and triples of a reduced alphabet in thorough) are executed in addition, as a guard against state outside the digest.',
+            'over the alphabet. All ordered pairs (and triples of a reduced alphabet in thorough) are executed in addition, as a guard against state outside the digest.'
+            ' Added: strings of 2^31 bytes (mid-argv, as the sum, as the path, with a NULL argv) interleaved with ordinary calls, and texts that fill the limit exactly and end in a partial multi-byte character.',
     'note': 'Alphabet: execv/execve x 3 paths x 11 argv shapes (NULL, argv[0]==NULL, empty strings, lengths limit-1/limit/limit+1/10x, 3000 entries) x 2 data-source limits, both builds. '
             'How long a truncated prefix may be is C05\'s business; here any prefix is accepted.',
 }
